@@ -35,7 +35,7 @@ def main():
     props = set(args.props.split(",")) if args.props else set(ad.props)
     t0 = time.time()
     jobs = []
-    for cfg in ad.configs(args.tier):
+    for cfg in ad.all_configs(args.tier):
         if args.cfg and cfg["id"] != args.cfg:
             continue
         out = envcheck.trace_path(ad, cfg, args.tier, seed, True)
